@@ -42,3 +42,27 @@ with open('/verif/seeded/INDEX.md', 'w') as f:
     det = sum(1 for r in rows if 'DETECTED' in r[5])
     f.write('\n%d seeded changes, %d detected by at least one registered check.\n' % (n, det))
 print('INDEX.md: %d seeds' % len(rows))
+
+# ---- behaviour-preserving refactorings (false-alarm test)
+rrows = []
+for d in sorted(glob.glob('/verif/seeded/refactors/*/')):
+    mp = os.path.join(d, 'meta.json')
+    if not os.path.exists(mp):
+        continue
+    m = json.load(open(mp))
+    name = os.path.basename(d.rstrip('/'))
+    last = {}
+    for r in m.get('check_runs', []):
+        last[r['check']] = r
+    v = '; '.join('%s: exit %d' % (c, r['exit']) for c, r in sorted(last.items()))
+    worst = max([r['exit'] if r['exit'] != 2 else 0.5 for r in last.values()] or [0])
+    rrows.append((name, m.get('summary', '').replace('\n', ' ')[:260], ', '.join(m.get('functions', []))[:160] if isinstance(m.get('functions'), list) else '', v,
+                  'FALSE ALARM' if worst == 1 else ('undecided' if worst == 0.5 else 'still decided (exit 0)'), m.get('note', '')))
+with open('/verif/seeded/refactors/INDEX.md', 'w') as f:
+    f.write('# Behaviour-preserving refactorings (false-alarm test)\n\nWritten by fresh sub-agents asked to tidy code WITHOUT changing behaviour; each applied to a copy of /repo HEAD and the covering checks run.\n'
+            'exit 0 = still decided, exit 2 = undecided (proof script no longer fits the text; not an alarm), exit 1 = false alarm.  Latest run per check is shown.\n\n')
+    f.write('| refactoring | what | functions | checks | outcome | note |\n|---|---|---|---|---|---|\n')
+    for r in rrows:
+        f.write('| ' + ' | '.join(str(x).replace('|', '\\|') for x in r) + ' |\n')
+    f.write('\n%d refactorings: %d still decided, %d undecided, %d false alarms (latest runs).\n' % (len(rrows), sum(1 for r in rrows if r[4].startswith('still')), sum(1 for r in rrows if r[4] == 'undecided'), sum(1 for r in rrows if r[4] == 'FALSE ALARM')))
+print('refactors INDEX: %d' % len(rrows))
